@@ -21,7 +21,7 @@ CLAIMED = {
          "Generated histories against model and against the naive configuration after every command/iteration.",
          "Trusts refegg.rs container semantics (structural re-canonicalisation); Map/Pair not generated yet (Map key collisions are outside the claim).",
          "DESIGN.md 4/C14"),
- "C04": ("property-based testing with injected faults: generated histories incl. commands failing at run time (rule panic beside union rules, :no-merge conflicts, failing primitives/lookups); validity predicate over the raw id-carrying dump after EVERY command (key uniqueness, canonical ids incl. inside containers, no congruent rows, container hash-consing, serialize() = read API, visibility probes on clones)",
+ "C04": ("property-based testing with injected faults: generated histories incl. commands failing at run time (rule panic beside union rules, :no-merge conflicts, failing primitives/lookups); validity predicate over the raw id-carrying dump after EVERY command (key uniqueness, canonical ids incl. inside containers, no congruent rows, container hash-consing, serialize() = read API, visibility probes on clones) The same invariants are also evaluated on large states (C14's many-containers stage: >1000 containers; C01's large-table stage: >10 000 rows) so that the incremental, index-driven rebuild paths are the ones exercised.",
          "Generated histories x fault positions with an invariant oracle evaluated after every single command, failed or not.",
          "Trusts the public read API (functions_iter, constructor_enodes, function_entries, value_to_class_id, container inner_values) as the observation of the stored rows.",
          "DESIGN.md 4/C04"),
@@ -41,11 +41,11 @@ CLAIMED = {
          "Generated scenarios with exact post-conditions; interleavings are sampled (repetitions), not enumerated.",
          "Cannot own the OS scheduler: stress + perturbation, no exhaustive interleaving coverage; deadlock = quiescent unfinished child.",
          "DESIGN.md 4/C19"),
- "C20": ("differential property testing across processes: each generated feature-rich program (and each .egg corpus file) is run twice in-process and in two more processes with different environment / cwd / address-space layout; outputs, error strings, run reports (durations zeroed) and final dump compared byte for byte",
+ "C20": ("differential property testing across processes: each generated feature-rich program (and each .egg corpus file) is run twice in-process and in two more processes with different environment / cwd / address-space layout; outputs, error strings, run reports (durations zeroed) and final dump compared byte for byte Directed stages: container rows rewritten in place by a union, and churn-join (bulk load, more than half deleted so the table compacts before its first index, then joined and printed).",
          "Generated programs with a repeat-execution differential oracle.",
          "Timings and print-stats text excluded as the property states.",
          "DESIGN.md 4/C20"),
- "C02": ("property-based testing against a nested-loop reference evaluator: random schema + skewed database + one conjunctive body of a chosen hypergraph shape (chain/star/cycle/clique/random) with decorations; Out table compared exactly under default / :no-decomp / EGraph.no_decomp / :naive / seminaive off, and with EGraph::query as a set",
+ "C02": ("property-based testing against a nested-loop reference evaluator: random schema + skewed database + one conjunctive body of a chosen hypergraph shape (chain/star/cycle/clique/random) with decorations; Out table compared exactly under default / :no-decomp / EGraph.no_decomp / :naive / seminaive off, and with EGraph::query as a set Bodies include existential atoms (all variables local and absent from the head) and half-local atoms, besides the shapes whose head uses every variable.",
          "Generated (query, database) pairs with an independent naive evaluator as oracle, across the planner configurations reachable from the language.",
          "Body size <= ~8 atoms, arity <= 4, tables <= 200 rows; PlanStrategy variants only reachable through the core-relations API are covered by C16's rule-set queries, not here.",
          "DESIGN.md 4/C02"),
